@@ -21,6 +21,7 @@ from vlib import core
 from vlib.core import sh2
 
 WRAP = "-Wl,--wrap=malloc,--wrap=free,--wrap=calloc,--wrap=realloc"
+WRAP_MM = WRAP + ",--wrap=jpeg_open_backing_store"      # harness/c14.c can supply a backing store
 ENV = {"ASAN_OPTIONS": "detect_leaks=0:allocator_may_return_null=1:max_allocation_size_mb=4096", "UBSAN_OPTIONS": "print_stacktrace=1"}
 MAXC = 1000000000
 U64 = 1 << 64
@@ -159,6 +160,109 @@ def gen_seq(rng, kind):
     return "seq %s | %s" % (spec, " ; ".join(ops))
 
 
+def gen_vacc(rng):
+    """access_virt_sarray/barray through a window with backing store (supplied by the harness): geometry + script"""
+    kind = "b" if rng.chance(2, 5) else "s"
+    prec = rng.choice([8, 8, 12, 16]) if kind == "s" else 8
+    # sample rows are padded to 2*ALIGN_SIZE by alloc_sarray but do_sarray_io transfers unpadded rows contiguously (latent,
+    # unreachable with jmemnobs.c): keep widths that need no padding so that the real backing-store path is meaningful
+    width = 64 * rng.range(1, 6) if kind == "s" else rng.range(1, 5)
+    rows = rng.choice([rng.range(1, 12), rng.range(12, 60), rng.range(60, 140)])
+    maxacc = rng.range(1, min(12, max(1, rows)))
+    if rng.chance(1, 8):
+        maxacc = rng.range(1, 16)
+    pz = rng.below(2)
+    unit = 128 if kind == "b" else (2 if prec > 8 else 1)
+    strip = maxacc * width * unit
+    maxmem = rng.choice([0, 1, 17000, 16400 + strip, 16400 + 2 * strip + rng.range(0, strip), 16400 + 3 * strip, 16400 + rng.range(0, 6) * strip,
+                         16400 + rows * width * unit - 1, 16400 + rows * width * unit + 200, 10 ** 7])
+    ops, U, val = [], 0, [rng.range(1, 9)]
+
+    def vals(n):
+        out = []
+        for _ in range(n):
+            val[0] = val[0] % 30000 + 1
+            out.append(val[0])
+        return out
+    # a writing pass in strips (possibly partial), then reads / rewrites / faults
+    stop = rows if rng.chance(3, 4) else rng.range(0, rows)
+    while U < stop and len(ops) < 40:
+        n = min(rng.range(1, maxacc) if rng.chance(1, 4) else maxacc, rows - U)
+        ops.append("w %d %s" % (U, " ".join(map(str, vals(n)))))
+        U += n
+    for _ in range(rng.range(3, 18)):
+        q = rng.below(20)
+        n = rng.range(1, maxacc) if rng.chance(2, 3) else maxacc
+        if q < 7:       # read somewhere in the defined part
+            s0 = rng.range(0, max(0, U - n)) if U else 0
+            ops.append("r %d %d" % (s0, min(n, rows - s0)))
+        elif q < 10:    # read ahead / at the end
+            s0 = rng.choice([max(0, U - 1), U, max(0, rows - n), rng.range(0, max(0, rows - n))])
+            ops.append("r %d %d" % (s0, min(n, rows - s0)))
+        elif q < 13:    # rewrite defined rows or continue writing
+            s0 = rng.choice([U, rng.range(0, U), max(0, U - n)])
+            s0 = min(s0, max(0, rows - 1))
+            n2 = max(0, min(n, rows - s0))
+            ops.append("w %d %s" % (s0, " ".join(map(str, vals(n2)))))
+            if s0 <= U:
+                U = max(U, s0 + n2)
+        elif q < 15:    # writer skipping rows
+            s0 = min(rows, U + rng.range(1, 5))
+            ops.append("w %d %s" % (s0, " ".join(map(str, vals(max(0, min(n, rows - s0)))))))
+        elif q < 17:    # invalid requests
+            ops.append(rng.choice(["r %d %d" % (rng.range(0, rows), maxacc + 1), "r %d %d" % (max(0, rows - 1), 2 + rng.below(3)),
+                                   "w %d %s" % (rows, "7"), "r %d 0" % rng.range(0, rows)]))
+        else:           # backward scan
+            s0 = max(0, (U or rows) - n * rng.range(1, 4))
+            ops.append("r %d %d" % (s0, min(n, rows - s0)))
+    return "vacc %s %d %d %d %d %d %d | %s" % (kind, prec, width, rows, maxacc, pz, maxmem, " ; ".join(ops))
+
+
+def vacc_oracle(case, impl):
+    """plain-array specification (theorem C14_virt_array_refines_plain_array) judged on the implementation's own line"""
+    hd, opss = case[4:].split("|", 1)
+    kind, prec, width, rows, maxacc, pz, maxmem = hd.split()
+    rows, maxacc, pz = int(rows), int(maxacc), int(pz)
+    parts = impl.split(" || ")[0].split(" ; ")
+    m = re.match(r"geom inmem=(\d+) rpc=(\d+) open=(\d) total=(\d+)", parts[0])
+    if not m:
+        return ("virtual-array harness produced no geometry: " + impl[:100], "va-noresult")
+    inmem = int(m.group(1))
+    ops = [o.strip() for o in opss.split(";") if o.strip()]
+    if len(parts) - 1 != len(ops):
+        return ("virtual-array harness: %d results for %d accesses: %s" % (len(parts) - 1, len(ops), impl[:200]), "va-noresult")
+    L, U = {}, 0
+    for o, r in zip(ops, parts[1:]):
+        f = o.split()
+        s0 = int(f[1])
+        if "OUTSIDE-WINDOW" in r:
+            return ("access_virt_%carray(start=%d) returned row pointers outside the in-memory window of %d rows: %s" % (kind, s0, inmem, r[:80]), "va-window")
+        if f[0] == "r":
+            n = int(f[2])
+            experr = s0 + n > rows or n > maxacc or (U < s0 + n and not pz)
+            if experr != r.startswith("bad"):
+                return ("read of rows [%d,%d) with %d defined rows: expected %s, got '%s'" % (s0, s0 + n, U, "JERR_BAD_VIRTUAL_ACCESS" if experr else "success", r[:60]), "va-read-result")
+            if not experr:
+                mv = re.search(r"\[([-\d ]*)\]", r)
+                got = [int(x) for x in mv.group(1).split()] if mv else None
+                want = [L[s0 + k] if s0 + k < U else 0 for k in range(n)]
+                if got != want:
+                    return ("read of rows [%d,%d) returned %s, the rows were last written as %s (rows >= %d are zero)" % (s0, s0 + n, got, want, U), "va-read-values")
+        else:
+            v = [int(x) for x in f[2:]]
+            n = len(v)
+            experr = s0 + n > rows or n > maxacc or (U < s0 + n and U < s0)
+            if experr != r.startswith("bad"):
+                return ("write of rows [%d,%d) with %d defined rows: expected %s, got '%s'" % (s0, s0 + n, U, "JERR_BAD_VIRTUAL_ACCESS" if experr else "success", r[:60]), "va-write-result")
+            if not experr:
+                for k in range(n):
+                    L[s0 + k] = v[k]
+                U = max(U, s0 + n)
+    if not impl.endswith("end live=0 badfree=0"):
+        return ("blocks left after self_destruct: " + impl[-40:], "va-leak")
+    return None
+
+
 SWEEP_OPS = ["init", "small 0 120", "small 1 300", "small 0 4000", "large 1 70000", "sarr 1 700 9", "barr 1 40 6",
              "reqs 1 500 64 8", "reqb 1 30 20 2", "real", "small 1 17000", "freep 1", "sarr 1 64 3", "small 0 20"]
 
@@ -292,7 +396,7 @@ def run_lines(exe, lines, args=(), timeout=1200):
 
 def part_a(ctx, drv, flavours):
     rng = ctx.rng.fork()
-    exes = {fl: ctx.cc("c14", ["c14.c"], fl, libs=("jpeg",), extra=WRAP) for fl in flavours}
+    exes = {fl: ctx.cc("c14", ["c14.c"], fl, libs=("jpeg",), extra=WRAP_MM) for fl in flavours}
     cases = []      # (line, kind)
     cdir = os.path.join(core.VERIF, "corpus", "C14")
     if os.path.isdir(cdir):
@@ -306,6 +410,8 @@ def part_a(ctx, drv, flavours):
     for i in range(n):
         k = kinds[i % len(kinds)] if i < 3 * len(kinds) else rng.choice(kinds[:5] if rng.chance(49, 50) else kinds)
         cases.append((gen_seq(rng, k), k))
+    for i in range(ctx.n(600, 8000)):
+        cases.append((gen_vacc(rng), "vacc"))
     return exes, cases
 
 
@@ -362,7 +468,7 @@ def exec_part_a(ctx, drv, exes, cases, add_sweep=True):
             impl = outs[i + 1]
             if impl is None:
                 continue
-            bad = seq_oracle(line, impl, cfg)
+            bad = vacc_oracle(line, impl) if line.startswith("vacc") else seq_oracle(line, impl, cfg)
             if bad:
                 ctx.violation(bad[0] + " (%s build)" % fl, {"case": line, "cfg": cfgline, "flavour": fl, "impl": impl[:3000]},
                               signature=bad[1] + ":" + kind)
@@ -803,7 +909,7 @@ def do_replay(ctx, drv):
     if fl not in ("simd", "plain", "asan", "asansimd"):
         fl = "asan"
     if "case" in r:
-        exes = {fl: ctx.cc("c14", ["c14.c"], fl, libs=("jpeg",), extra=WRAP)}
+        exes = {fl: ctx.cc("c14", ["c14.c"], fl, libs=("jpeg",), extra=WRAP_MM)}
         exec_part_a(ctx, drv, exes, [(r["case"], "replay")], add_sweep=False)
     elif "fi" in r:
         built = part_b(ctx, [fl])
